@@ -118,6 +118,8 @@ def check_r4(ctx, db, config, A):
                     ctx.violation('R4', fn, site + ':over-reclaim', 'the finger may be raised past the released block: older live allocations would vanish from the iterated slices', e.span)
             elif cls == 'BUMP':
                 nb += 1
+                # each slice lies inside its chunk: the lowered finger stays within [data, old finger] (C01.O2)
+                c01.check_finger_store(ctx, key, I, res, e, fn, o, '%s [%s]' % (loc(e.span), arena.stack_str(e)), set(c01.ENTRY_AXIOMS.get(key, ())), rules={'R1': 'R4', 'O2': 'R4', 'R3': 'R4'})
                 L = e.state.env.get((e.stack, 2))
                 old = arena.old_finger(I, e)
                 P = arena.mk_prover(I, e, res)
@@ -144,8 +146,11 @@ def check_r4(ctx, db, config, A):
     # must give its reservation back in every case (the obligations of C11) -- otherwise dead bytes stay inside an iterated slice.
     from .. import runner
     from . import c06, c11
-    c06.run(runner.Sub(ctx, 'R5', 'C06'), config)
+    c06.run(runner.Sub(ctx, 'R5', 'C06'), config, shares=False)
     c11.run(runner.Sub(ctx, 'R6', 'C11'), config)
+    # ---- R7 grow / shrink / deallocate keep every live block inside an iterated slice also when they fail half-way: C12
+    from . import c12
+    c12.run(runner.Sub(ctx, 'R7', 'C12'), config)
 
 
 def bump_exact(I, P0, x, facts, old, L):
